@@ -948,6 +948,167 @@ def visit_oracle(ctx: Ctx, p, res) -> None:
                      f"{'documented as a new attribute' if r['w_documented'] else 'not documented'} (_maybeAttribute looked along allbases())")
 
 
+# ------------------------------------------------------------------ hierarchies nested in a class body
+
+NM0, NM1 = "c05n0", "c05n1"
+
+
+def gen_nested(rng, nclasses: int, h=None) -> Dict[str, Any]:
+    """classes nested in the body of `Outer` whose bases are sibling nested classes (looked up in the class body first);
+    some of the names are ALSO bound at module level - by a class statement before or after Outer, or by an import -
+    and used there by module-level classes; a module-level-only class G may be a base of nested classes too.
+    ids: 0 object, 1 unused, 2 = G, 3.. nested siblings N3.., then the module-level classes."""
+    first = 3
+    if h is None:
+        h = random_hierarchy(rng, nclasses, first)
+    else:
+        h = [tuple(j + 2 for j in b) for b in h]
+    nested = list(range(first, first + nclasses))
+    bases: Dict[int, List[int]] = {2: []}
+    qual: Dict[int, List[str]] = {2: [NM0, "G"]}
+    own: Dict[int, bool] = {2: True}
+    doc: Dict[int, bool] = {2: True}
+
+    def member(c: int, indent: str) -> str:
+        if not own[c]:
+            return indent + "pass\n"
+        return indent + "def m(self):\n" + indent + "    " + ('"doc of C%d"' % c if doc[c] else "pass") + "\n"
+    inner = []
+    for c, b in zip(nested, h):
+        bl = list(b)
+        if rng.random() < 0.2:
+            bl.append(2)
+        bases[c] = bl
+        qual[c] = [NM0, "Outer.N%d" % c]
+        own[c] = rng.random() < 0.5
+        doc[c] = own[c] and rng.random() < 0.5
+        inner.append("    class N%d%s:\n%s" % (c, "(%s)" % ", ".join("G" if j == 2 else "N%d" % j for j in bl) if bl else "",
+                                              member(c, "        ")))
+    nxt = first + nclasses
+    before, after, imports, m1 = [], [], [], []
+    users = []
+    for c in nested:
+        if rng.random() < 0.4:
+            k = nxt
+            nxt += 1
+            bases[k], own[k], doc[k] = [], True, True
+            how = rng.randrange(3)
+            if how == 0:
+                qual[k] = [NM1, "N%d" % c]
+                m1.append("class N%d:\n%s" % (c, member(k, "    ")))
+                imports.append("from %s import N%d\n" % (NM1, c))
+            else:
+                qual[k] = [NM0, "N%d" % c]
+                (before if how == 1 else after).append("class N%d:\n%s" % (c, member(k, "    ")))
+            if rng.random() < 0.6:
+                u = nxt
+                nxt += 1
+                bases[u], own[u], doc[u] = [k], rng.random() < 0.3, False
+                qual[u] = [NM0, "P%d" % c]
+                users.append("class P%d(N%d):\n%s" % (c, c, member(u, "    ")))
+    src0 = ("".join(imports) + "class G:\n" + member(2, "    ") + "".join(before) + "class Outer:\n" + "".join(inner)
+            + "".join(after) + "".join(users))
+    ids = sorted(bases)
+    return {"n": len(ids), "bases": {str(c): bases[c] for c in ids}, "subs": {str(c): [0] * len(bases[c]) for c in ids},
+            "own": [c for c in ids if own[c]], "doc": [c for c in ids if doc[c]], "empty": [],
+            "qual": {str(c): qual[c] for c in ids}, "modules": {NM0: src0, NM1: "".join(m1)},
+            "clash": sum(1 for c in ids if qual[c][1].startswith("N") and "." not in qual[c][1])}
+
+
+def run_nested(p) -> Tuple[Dict[int, Dict[str, Any]], Dict[int, Dict[str, Any]], Optional[str]]:
+    """the real System and CPython on a nested-hierarchy project; results in the shape pd_full / py_full give"""
+    from pydoctor import model
+    from pydoctor.templatewriter import util
+    get_docstring = getattr(model, "get_docstring", None)
+    if get_docstring is None:
+        from pydoctor.epydoc2stan import get_docstring
+    reports: List[Tuple[str, str, str]] = []
+    orig = model.Documentable.report
+
+    def spy(self, descr, section="parsing", lineno_offset=0, thresh=-1):
+        reports.append((self.fullName(), section, descr))
+        return orig(self, descr, section, lineno_offset, thresh)
+    model.Documentable.report = spy   # type: ignore
+    try:
+        system = model.System()
+        builder = system.systemBuilder(system)
+        for name in (NM0, NM1):
+            builder.addModuleString(p["modules"][name], name)
+        builder.buildModules()
+    except Exception as e:
+        return {}, {}, "Crash:" + type(e).__name__ + ":" + str(e)[:80]
+    finally:
+        model.Documentable.report = orig   # type: ignore
+    full = {"%s.%s" % tuple(q): int(c) for c, q in p["qual"].items()}
+
+    def ident(o) -> int:
+        if isinstance(o, str):
+            return -1
+        return full.get(o.fullName(), -2)
+    pd: Dict[int, Dict[str, Any]] = {}
+    for cs, q in p["qual"].items():
+        c = int(cs)
+        o = system.allobjects.get("%s.%s" % tuple(q))
+        if not isinstance(o, model.Class):
+            pd[c] = {"missing": True}
+            continue
+        found = o.find("m")
+        src: Any = "x"
+        if "m" in o.contents:
+            sd = get_docstring(o.contents["m"])[1]
+            src = ident(sd.parent) if sd is not None else None
+        pd[c] = {"mro": [ident(x) for x in o.mro(True)], "reports": [r for r in reports if r[0] == o.fullName() and r[1] == "mro"],
+                 "find": ident(found.parent) if found is not None else None, "docsrc": src,
+                 "documented": o.fullName() in system.allobjects and o.isVisible,
+                 "inherited": [ident(x.parent) for x in util.inherited_members(o) if x.name == "m"]}
+    # CPython
+    saved = {n: sys.modules.get(n) for n in (NM0, NM1)}
+    py: Dict[int, Dict[str, Any]] = {}
+    try:
+        mods = {}
+        for n in (NM1, NM0):
+            mod = types.ModuleType(n)
+            sys.modules[n] = mod
+            mods[n] = mod
+            try:
+                exec(compile(p["modules"][n], n, "exec"), mod.__dict__)
+            except TypeError:
+                pass        # a refused class statement inside Outer takes the rest of the module with it
+        objs: Dict[int, Any] = {}
+        for cs, q in p["qual"].items():
+            t: Any = mods[q[0]]
+            for part in q[1].split("."):
+                t = getattr(t, part, None) if not isinstance(t, types.ModuleType) else t.__dict__.get(part)
+                if t is None:
+                    break
+            if isinstance(t, type) and t.__module__ == q[0] and t.__qualname__ == q[1]:
+                objs[int(cs)] = t
+        ident2 = {v: k for k, v in objs.items()}
+        ident2[object] = 0
+        for cs in p["qual"]:
+            c = int(cs)
+            t = objs.get(c)
+            if t is None:
+                py[c] = {"status": "ancestor"}      # not created: nothing to compare
+                continue
+            owner = next((k for k in t.__mro__ if "m" in k.__dict__), None)
+            src2: Any = "x"
+            getdoc: Any = "x"
+            if "m" in t.__dict__:
+                src2 = next((ident2[k] for k in t.__mro__ if "m" in k.__dict__ and k.__dict__["m"].__doc__ is not None), None)
+                d = inspect.getdoc(t.__dict__["m"])
+                getdoc = None if d is None else int(d.split("C")[1]) if d.strip() else "e"
+            py[c] = {"status": "ok", "mro": [ident2.get(k, -3) for k in t.__mro__], "find": ident2[owner] if owner is not None else None,
+                     "docsrc": src2, "getdoc": getdoc}
+    finally:
+        for n in (NM0, NM1):
+            if saved[n] is None:
+                sys.modules.pop(n, None)
+            else:
+                sys.modules[n] = saved[n]
+    return pd, py, None
+
+
 def opt(x) -> str:
     return "-" if x is None else str(x)
 
@@ -1200,6 +1361,42 @@ def run(ctx: Ctx) -> None:
         ctx.count("uses:projects-with-type-field-phantom", int(bool(p.get("phantom"))))
         uses_oracle(ctx, p, pd, py)
     ctx.compare("mro()/is_exception/constructor/override/inherited~Mro(uses)", ureq, uout, upay)
+
+    # ---- hierarchies nested in a class body: bases are sibling nested classes, some names also bound at module level
+    nprojects = load_corpus("nested")
+    ctx.count("corpus:nested", len(nprojects))
+    for n in range(1, 5 if ctx.quick else 6):
+        for h in hierarchies(n):
+            nprojects.append(gen_nested(ctx.rng, n, h=h))
+    for _ in range(120 if ctx.quick else 3000):
+        for _try in range(6):       # a class statement Python refuses aborts the body of Outer: draw again
+            q = gen_nested(ctx.rng, ctx.rng.randint(4, 8))
+            if all(x is not None for x in py_bare([tuple(j - 2 for j in q["bases"][str(c)] if j != 2)
+                                                   for c in sorted(int(k) for k in q["bases"]) if q["qual"][str(c)][1].startswith("Outer.")])[0]):
+                break
+        nprojects.append(q)
+    nreq, nout, nreq2, nout2, npay = [], [], [], [], []
+    for p in nprojects:
+        pd, py, crash = run_nested(p)
+        if crash:
+            ctx.fail("crash:" + crash.split(":")[1], {"project": p}, crash)
+            continue
+        if any(r["status"] != "ok" for r in py.values()):
+            ctx.count("nested:python-refuses-a-class(skipped)")     # the refused statement aborts the body of Outer
+            continue
+        h, own, doc = project_tokens(p)
+        a, b = full_lines(p, pd, py)
+        nreq.append("mro full %s 1 %s %s" % (h, own, doc))
+        nout.append(a)
+        nreq2.append("mro pyfull %s 1 %s %s" % (h, own, doc))
+        nout2.append(b)
+        npay.append({"project": p})
+        ctx.case("nested " + p["modules"][NM0] + p["modules"][NM1], any(len(b_) >= 2 for b_ in p["bases"].values()))
+        ctx.count("nested:projects")
+        ctx.count("nested:projects-with-a-name-also-bound-at-module-level", int(p["clash"] > 0))
+        full_oracle(ctx, p, pd, py, "full")
+    ctx.compare("System~Mro(nested class hierarchies)", nreq, nout, npay)
+    ctx.compare("exec~PyMro(nested class hierarchies)", nreq2, nout2, npay)
 
     # ---- names looked up through a class while the modules are visited (`_mro` is None: Class.mro() = allbases order)
     vprojects = load_corpus("visit")
